@@ -188,6 +188,7 @@ class Check(PropertyCheck):
             v += schedx_part.direct_x(self) or []
         import f9_part
         v += f9_part.hunt(self)
+        v += f9_part.ring_wrap_hunt(self)
         return v[:6]
 
     def search(self):
